@@ -57,12 +57,15 @@ inductive Functor
 deriving Repr, DecidableEq
 
 inductive Ev
-  /-- callback of the timer `seq` (registered as `name`) runs for the `k`-th time; `exp` is the deadline under
-  which it was queued, `now` the reading `getExpired` compared it with, `clock` the last clock reading -/
-  | run (name seq k : Nat) (first : Time) (delta : Int) (exp now clock : Time)
+  /-- callback of the timer `seq` (registered as `name`, living at `addr`) runs for the `k`-th time; `first` is the
+  deadline it was created with, `rep`/`delta` its repeat flag and interval, `exp` the deadline under which it was
+  queued, `now` the reading `getExpired` compared it with, `clock` the last clock reading (all but `name`, `clock`
+  ghost) -/
+  | run (name seq k : Nat) (addr : Addr) (rep : Bool) (first : Time) (delta : Int) (exp now clock : Time)
   | arm (ns : Int) (now : Time)      -- timerfd_settime(relative ns) computed from the reading `now`
   | added (name : Nat) (addr : Addr) (seq : Nat)   -- addTimer returned this id
   | registered (addr : Addr) (seq : Nat) (exp : Time)   -- addTimerInLoop inserted the timer
+  | restarted (addr : Addr) (seq : Nat) (exp : Time)    -- ghost: reset() restarted the repeating timer with this deadline
   | cancel (addr : Addr) (seq : Nat) (inBatch : Bool)   -- cancelInLoop processed
   | processed (k : Nat)
   | uaf (addr : Addr)                -- a freed Timer was dereferenced
@@ -216,7 +219,7 @@ def scriptFor (scripts : List (Nat × Option Nat × Act)) (name k : Nat) : List 
 def runTimer (now : Time) (s : TQ) (e : Time × Addr) : TQ :=
   let s := chk s e.2
   let c := cellAt s e.2
-  let s := emit s (.run c.name c.seq (c.runs + 1) c.first c.delta e.1 now s.clock)
+  let s := emit s (.run c.name c.seq (c.runs + 1) e.2 c.rep c.first c.delta e.1 now s.clock)
   (scriptFor s.scripts c.name (c.runs + 1)).foldl execAct s
 
 def isExpired (now : Time) (e : Time × Addr) : Bool := decide (entryExpired e.1 e.2 now)
@@ -235,7 +238,8 @@ def resetOne (now : Time) (s : TQ) (e : Time × Addr) : TQ :=
   let c := cellAt s e.2
   let cancelled : Bool := decide ((e.2, c.seq) ∈ s.cancelling)
   if resetRestarts c.rep cancelled then
-    (insertTimer { s with heap := hset s.heap e.2 { c with exp := restart c.rep now c.delta, runs := c.runs + 1 } } e.2).1
+    (insertTimer (emit { s with heap := hset s.heap e.2 { c with exp := restart c.rep now c.delta, runs := c.runs + 1 } }
+      (.restarted e.2 c.seq (restart c.rep now c.delta))) e.2).1
   else { s with heap := hfree s.heap e.2 }
 
 /-- the tail of `TimerQueue::reset`: re-arm for the earliest remaining timer -/
